@@ -56,6 +56,8 @@ type sysFixture struct {
 	mon      *http.Server
 	monPort  int
 	nextID   atomic.Int64
+	// witnessYAML, if set, is appended to the configuration (witness section).
+	witnessYAML string
 
 	mu       sync.Mutex
 	acks     []*sysAck
@@ -200,6 +202,7 @@ func (f *sysFixture) writeConfig(name string, port int, periodMs int) string {
 	fmt.Fprintf(&b, "    cache: %s\n", filepath.Join(f.Base, "cache-"+name+".db"))
 	fmt.Fprintf(&b, "    localdirectory: %s\n", f.LogDir)
 	fmt.Fprintf(&b, "    notafterstart: \"2020-01-01T00:00:00Z\"\n    notafterlimit: \"2090-01-01T00:00:00Z\"\n")
+	b.WriteString(f.witnessYAML)
 	p := filepath.Join(f.Base, "sunlight-"+name+".yaml")
 	os.WriteFile(p, []byte(b.String()), 0o644)
 	return p
